@@ -113,6 +113,27 @@ m("ino-decode-always-in-move", INO, """                src_path = self._decode_p
                 dest_path = os.fsdecode(move_to.src_path)""", ["C19"])
 m("ino-decode-replace-errors", INO, "        return path if isinstance(self.watch.path, bytes) else os.fsdecode(path)", "        return path if isinstance(self.watch.path, bytes) else path.decode('utf-8', 'replace')", ["C19"])
 m("poll-created-decoded", "src/watchdog/observers/polling.py", "                self.queue_event(FileCreatedEvent(src_path))", "                self.queue_event(FileCreatedEvent(os.fsdecode(src_path)))", ["C19"])
+m("inc-close-always-closes-fds", INC, """                if self._is_reading:
+                    # inotify_rm_watch() should write data to _inotify_fd and wake
+                    # the thread, but writing to the kill channel will gaurentee this
+                    os.write(self._kill_w, b"!")
+                else:
+                    self._close_resources()""", """                if self._is_reading:
+                    os.write(self._kill_w, b"!")
+                self._close_resources()""", ["C12"])
+m("inc-is-reading-reset-unlocked", INC, """                with self._lock:
+                    self._is_reading = False
+
+                    if self._closed:""", """                self._is_reading = False
+                with self._lock:
+                    if self._closed:""", ["C12"])
+m("inc-init-leak-again", INC, """        except OSError:
+            # The instance is never handed out: release what was opened above.
+            self._close_resources()
+            raise""", """        except OSError:
+            raise""", ["C12"])
+m("ib-close-no-join", IB, """        self.stop()
+        self.join()""", """        self.stop()""", ["C12"])
 
 
 def main():
